@@ -210,6 +210,8 @@ class VLoop(asyncio.SelectorEventLoop):
     async def create_datagram_endpoint(self, protocol_factory, local_addr=None, remote_addr=None, **kw):
         # as in asyncio: the bind happens at once (and fails at once), the protocol is connected one loop cycle later
         port = local_addr[1]
+        if not 0 <= port <= 65535:
+            raise OverflowError("bind(): port must be 0-65535.")        # what socket.bind raises for such a number
         if port in self.net.udp or port in self.net.occupied:
             raise OSError(98, f"error while attempting to bind on address {local_addr!r}: address already in use")
         protocol = protocol_factory()
